@@ -13,6 +13,19 @@ VARS = ["python_version", "python_full_version", "os_name", "os.name", "sys_plat
 MOPS = ["==", "!=", "<", "<=", ">", ">=", "~=", "===", "in", "not in"]
 LITS = ["posix", "3.8", "1.0", "linux", "x86_64", "A_b", "a-b", "", "win32", "3.10.0", "1.0+local", "cpython", "2.7.*", "a b"]
 NAMES = ["foo", "Foo_Bar", "a.b-c", "x1", "A", "name", "zope.interface", "p-y_t.h"]
+
+
+def pep508_name(rng):
+    """a PEP 508 identifier from the grammar: letterOrDigit ((letterOrDigit | '-' | '_' | '.')* letterOrDigit)? —
+    runs of several separators, digits first, single characters and upper case included on purpose"""
+    n = rng.choice([1, 1, 2, 3, 4, 6, 9])
+    alnum = "abzAZ019xY"
+    if n == 1:
+        return rng.choice(alnum)
+    mid = "".join(rng.choice(alnum) if rng.random() < 0.55 else rng.choice("-_.") for _ in range(n - 2))
+    return rng.choice(alnum) + mid + rng.choice(alnum)
+
+
 LICS = ["MIT", "Apache-2.0", "GPL-2.0-or-later", "BSD-3-Clause", "LicenseRef-Foo", "ISC"]
 EXCS = ["Classpath-exception-2.0", "LLVM-exception"]
 
